@@ -732,6 +732,19 @@ class C18Executor(Executor):
             return [(s2, VExt("tzinfo") if aware else NONE) for (s2, aware) in _split_aware(self, st, base.t)]
         return super().get_attr(st, base, attr, node)
 
+    def get_index(self, st, base, idx, node):
+        """round 7: `item["key"]` on a parsed JSON value -- TypeError unless it is an object, KeyError when the key is absent,
+        else the member exactly as `item.get("key")` gives it."""
+        if isinstance(base, VExt) and base.sort == "Json" and isinstance(idx, VStr) and idx.const() is not None:
+            st = self.fork_raise(st, z3.Not(J_ISDICT(base.t)), "TypeError")
+            if st is None:
+                return []
+            st = self.fork_raise(st, z3.Not(J_HAS(base.t, sv(idx.const()))), "KeyError")
+            if st is None:
+                return []
+            return m_json_get(self, st, base, [idx], {}, node)
+        return super().get_index(st, base, idx, node)
+
     def apply_contract(self, st, c, args, kwargs, node):
         if c.target.endswith("::SharePointRestClient._get_json") and len(args) >= 2 and self.inline_depth == 0:
             st.ghost["requested"] = st.ghost.get("requested", ()) + (args[1],)      # which URLs this activation asks the server for
